@@ -34,6 +34,12 @@ func initNets() {
 		mk("signet-like", 0x6f, 0xef, [4]byte{0x04, 0x5f, 0x18, 0xbc}, [4]byte{0x04, 0x5f, 0x1c, 0xf6}),
 		mk("hd-only", 0x00, 0x80, [4]byte{0x0a, 0x0b, 0x0c, 0x0d}, [4]byte{0x1a, 0x1b, 0x1c, 0x1d}),
 	}
+	// a first lookup and a first Neuter happen BEFORE the custom networks are registered: registration must work at any
+	// time, not only before the registry is first consulted
+	_, _ = chaincfg.HDPrivateKeyToPublicKeyID(chaincfg.MainNet.HDPrivateKeyID[:])
+	if m0, err := bip32.NewMaster(make([]byte, 32), &chaincfg.MainNet); err == nil {
+		_, _ = m0.Neuter()
+	}
 	for _, n := range nets[2:] {
 		_ = chaincfg.Register(n.params)
 	}
@@ -51,10 +57,14 @@ func obsKey(k *bip32.ExtendedKey) string {
 	pub := "e"
 	if pk, err := k.ECPubKey(); err == nil {
 		pub = hx(pk.SerialiseCompressed())
+		pk.X.SetInt64(0x5a5a)
+		pk.Y.SetInt64(0x5a5a)
 	}
 	prv := "e"
 	if sk, err := k.ECPrivKey(); err == nil {
 		prv = hx(sk.Serialise())
+		sk.D.SetInt64(0x5a5a) // the returned key object is the caller's: scribbling over it must not reach the extended key
+		sk.X.SetInt64(1)
 	}
 	return "S=" + hx([]byte(k.String())) + "|P=" + b2s(k.IsPrivate()) + "|D=" + strconv.Itoa(int(k.Depth())) +
 		"|F=" + strconv.FormatUint(uint64(k.ParentFingerprint()), 16) + "|A=" + hx([]byte(k.Address(nets[0].params))) +
